@@ -32,7 +32,13 @@ Inductive c04case :=
    headers, 1 trailers): the list on the wire, whether Invoke with grpc.Header /
    grpc.Trailer call options panicked, and the metadata those options received
    (None = nothing was delivered) *)
-| CSysUnaryApi (which : Z) (wire : list kv) (panicked : bool) (api : option mdmap).
+| CSysUnaryApi (which : Z) (wire : list kv) (panicked : bool) (api : option mdmap)
+(* the model regenerated from the Go source by tools/go2coq and the committed
+   equivalence proof coq/Gen/<Name>Equiv.v, re-checked by coqc on this run:
+   status 0 = proved equal to the hand-written model, 1 = the equivalence proof no
+   longer checks (the code says something else now), 2 = the source uses a
+   construct outside the translator's subset (tie broken, never skipped) *)
+| CGen (name : Z) (status : Z).
 
 Fixpoint reorder (order : list bytes) (m : mdmap) : mdmap :=
   match order with
@@ -128,6 +134,7 @@ Definition spec_same (sent got : mdmap) : bool :=
 
 Definition check (c : c04case) : list nat :=
   match c with
+  | CGen _ status => if Z.eqb status 0 then [] else [1%nat]
   | CCodec mds order obs_kvs obs_md =>
       let m := reorder order (join mds) in
       (if list_eqb kv_eqb (to_kv m) obs_kvs then [] else [1%nat]) ++
